@@ -391,6 +391,24 @@ func c09CheckFormat(c *Ctx, src []byte, path, origin string, strictComments bool
 			}
 		}
 		if key == "C09:comment-lost" {
+			// every lost comment stands directly before a map key whose string literal spans lines
+			before := map[string]bool{}
+			for _, m := range c09MultilineKeyRe.FindAllSubmatch(src, -1) {
+				for _, l := range strings.Split(string(m[1]), "\n") {
+					if t := strings.TrimSpace(l); t != "" {
+						before[t] = true
+					}
+				}
+			}
+			all := len(before) > 0
+			for _, x := range lost {
+				all = all && before[strings.TrimSpace(x)]
+			}
+			if all {
+				key = "C09:comment-lost:before-multiline-key"
+			}
+		}
+		if key == "C09:comment-lost" {
 			// every lost comment stands directly before a closing `]` / `}` (no element of the literal follows it)
 			inEmpty := map[string]bool{}
 			for _, m := range c09EmptyCollectionRe.FindAllSubmatch(src, -1) {
@@ -486,6 +504,14 @@ func c09Class(a *syntax.Ast) string {
 // 0.310000002...), reading the printed value rounds up once more (0.31 -> 0.32).
 
 func c09RoundUpTo(value float32, granularity float64) float32 { // = roundUpTo of parsenum.go
+	// (since the repair of F30: a value that already is, as closely as a float32 can hold it, a
+	// multiple of 1/granularity stays as it is)
+	if value == 0 {
+		return 0
+	}
+	if nearest := float32(math.Round(float64(value)*granularity) / granularity); nearest == value {
+		return value
+	}
 	if value > 0 {
 		return float32(math.Ceil(float64(value)*granularity) / granularity)
 	} else if value < 0 {
@@ -569,6 +595,8 @@ func c09BindListHasComments(a *syntax.Ast) bool {
 	}
 	return false
 }
+
+var c09MultilineKeyRe = regexp.MustCompile(`((?:#[^\n]*\n\s*)+)"(?:[^"\\\n]|\\.)*\n`)
 
 var c09EmptyCollectionRe = regexp.MustCompile(`((?:#[^\n]*\n\s*)+)[\]}]`)
 
